@@ -304,6 +304,34 @@ impl Engine for VmEngine {
             run("append(comment($78),table)", ""),
             run("setprop(comment($78),table,int(#1))", ""),
             run("setglobal($67,get(comment($78),int(#0)))", ""),
+            // a run that leaves only integer globals behind (no heap object, balanced stack), clear,
+            // then a program that reads a global it never set: as on a fresh machine (VarNotFound)
+            vec![
+                "vm new".to_string(),
+                "vm run mod([],[fn($6d61696e,[],[setglobal($61,int(#5)),setglobal($62,int(#6))])],[]) budget=1000".to_string(),
+                "vm clear".to_string(),
+                "vm run mod([],[fn($6d61696e,[],[setglobal($6f7574,readvar($7a7a))])],[]) budget=1000".to_string(),
+                "vm stats".to_string(),
+                "vm clear".to_string(),
+                "vm run mod([],[fn($6d61696e,[],[setglobal($6f7574,add(readvar($7a7a),int(#1))),setglobal($6f32,readvar($7979))])],[]) budget=1000".to_string(),
+            ],
+            // tables in a prefix relation are not equal, an empty table equals only an empty one
+            run("setvar($61,array([int(#1),int(#2)])),setvar($62,array([int(#1),int(#2),int(#3)])),setvar($63,table),setvar($64,table),setglobal($6531,eq(readvar($61),readvar($62))),setglobal($6532,neq(readvar($63),readvar($61))),setglobal($6533,lesseq(readvar($62),readvar($61))),setglobal($6534,eq(readvar($62),readvar($61))),setglobal($6535,eq(readvar($63),readvar($64))),setglobal($6536,eq(readvar($63),readvar($62)))", ""),
+            // callbacks that fail (after a little loop) under a host function that swallows the error:
+            // their instructions count against the budget all the same (oracle: dispatches <= budget)
+            vec![
+                "vm new".to_string(),
+                "vm run mod([],[fn($6d61696e,[],[repeat($69,int(#20),composite($5f,[setvar($78,callnative($7063616c6c,[closure([$70],[setvar($63,int(#0)),while(less(readvar($63),int(#8)),composite($5f,[setvar($63,add(readvar($63),int(#1)))])),return(getprop(int(#1),int(#2)))]),int(#0)]))])),setglobal($67,int(#1))])],[]) budget=300".to_string(),
+            ],
+            // a host callback at every call depth around the call-stack limit (two more frames must fit)
+            {
+                let mut ops = vec!["vm new mem=409600 stack=256 calls=10".to_string()];
+                for n in 0..13 {
+                    ops.push(format!("vm run mod([],[fn($6d61696e,[],[setglobal($67,call($66,[int(#{n})]))]),fn($66,[$6e],[ifelse(less(readvar($6e),int(#1)),return(callnative($63616c6c6261636b,[closure([$70],[return(readvar($70))]),int(#7)])),return(call($66,[sub(readvar($6e),int(#1))])))])],[]) budget=2000"));
+                    ops.push("vm clear".to_string());
+                }
+                ops
+            },
             // a card without a value in a value slot pops the EMPTY stack (nil); the run ends with a
             // SetProperty, whose pop_n leaves its operands behind in the slots above the top: the
             // second run on the uncleared machine must still read nil
